@@ -15,8 +15,17 @@ def fresh_name(prefix: str) -> str:
     return f"{prefix}!{next(_fresh)}"
 
 
+INDEX_VARS = {}   # id -> const: the integer constants created as generic / bound index variables (kept alive: ids are recycled)
+
+
 def fresh_int(prefix="i"):
-    return z3.Int(fresh_name(prefix))
+    c = z3.Int(fresh_name(prefix))
+    INDEX_VARS[c.get_id()] = c
+    return c
+
+
+def is_index_var(x):
+    return x.get_id() in INDEX_VARS
 
 
 def fresh_real(prefix="r"):
